@@ -16,6 +16,7 @@ from tools.harness.codec.target_py import PyTarget
 PROP = 'C18'
 FID = 'F-PY-ARRELEM'
 FID_WRAP = 'F-PY-ARRWRAP'
+FID_FPREC = 'F-PY-ARRWRAP-FPREC'
 
 MANIFEST = dict(
     technique='Coq proof (induction over operation sequences) about a hand model of the generated Python classes whose template facts and '
@@ -427,9 +428,19 @@ class Gen:
                 # what the source ndarray really holds (float16/32 round the literals)
                 fmt = {16: '<e', 32: '<f', 64: '<d'}[w]
                 vals = [struct.unpack(fmt, struct.pack(fmt, v))[0] for v in vals]
+                def rb(z):      # the bound as NumPy compares it: converted to the dtype of the source array
+                    try:
+                        return struct.unpack(fmt, struct.pack(fmt, float(z)))[0]
+                    except OverflowError:
+                        return float('inf') if z > 0 else float('-inf')
+                if n and w < 64 and r.random() < 0.15 and float(hi) + 1.0 == rb(hi) and hi < 2 ** 32:
+                    vals = [float(r.randint(max(lo, -100), min(hi, 100))) for _ in vals]
+                    vals[r.randrange(n)] = float(hi) + 1.0          # out of range, but == the bound after rounding it to the source dtype
                 if any(not lo <= v <= hi for v in vals):
                     tags.add('arrwrap')
                     exp = 'reject'
+                    if all(rb(lo) <= v <= rb(hi) for v in vals) and std_width(et['w']) == et['w']:
+                        tags.add('arrwrap_fprec')
                 return {'nd': src, 'e': [lit(vf(v)) for v in vals]}, exp, tags
             pool = [0.0, 1.5, -2.25, 0.5, 1024.0, 65504.0] + ([1e6, 1e-30] if w > 16 else []) + ([1e39, 1e300] if w > 32 else [])
             vals = [r.choice(pool) * r.choice([1, -1]) for _ in range(n)]
@@ -973,6 +984,22 @@ def conv_sweep(rng: random.Random) -> typing.List[dict]:
     return out
 
 
+FPREC_VALUES = {('f16', '%x' % f64(32768.0)), ('f32', '%x' % f64(2147483648.0))}
+
+
+def has_fprec_value(x) -> bool:
+    """does the operation hand over a float16/float32 ndarray holding the first value beyond an int16/int32 bound (the trigger value
+    of F-PY-ARRWRAP-FPREC) anywhere, e.g. inside a constructor argument or a nested instance?"""
+    if isinstance(x, dict):
+        if x.get('nd') in ('f16', 'f32') and any(isinstance(e, dict) and isinstance(e.get('v'), dict) and (x['nd'], e['v'].get('f')) in FPREC_VALUES
+                                                 for e in x.get('e', [])):
+            return True
+        return any(has_fprec_value(v) for v in x.values())
+    if isinstance(x, list):
+        return any(has_fprec_value(v) for v in x)
+    return False
+
+
 def probe_cases(m: MDB) -> typing.List[typing.Tuple[dict, typing.List[dict]]]:
     """directed cases on the hand-written namespace c18p (witnesses of the known finding first)"""
     s = m.index['c18p.S.1.0']
@@ -988,6 +1015,7 @@ def probe_cases(m: MDB) -> typing.List[typing.Tuple[dict, typing.List[dict]]]:
     cases = [
         one(s, [{'set': fi['va4'], 'x': L(200, 3)}], [('reject', ['arrelem', 'witness'])]),
         one(s, [{'set': fi['va8'], 'x': {'nd': 'i64', 'e': [lit(vi(256)), lit(vi(1))]}}], [('reject', ['arrwrap', 'witness'])]),   # index 1: F-PY-ARRWRAP
+        one(s, [{'set': fi['vi16'], 'x': {'nd': 'f16', 'e': [lit(vf(32768.0)), lit(vf(1.0))]}}], [('reject', ['arrwrap', 'arrwrap_fprec', 'witness'])]),  # index 2
         one(s, [{'set': fi['va4'], 'x': lit(vy(b'\xff\x01'))}], [('reject', ['arrelem', 'arr_bytes', 'witness'])]),
         one(s, [{'set': fi['vi16'], 'x': {'nd': 'i64', 'e': [lit(vi(70000)), lit(vi(1))]}}, {'set': fi['va8'], 'x': {'nd': 'i64', 'e': [lit(vi(-1))]}},
                 {'set': fi['vi16'], 'x': {'nd': 'u16', 'e': [lit(vi(40000))]}}, {'set': fi['va8'], 'x': {'nd': 'f64', 'e': [lit(vf(300.0))]}},
@@ -1079,13 +1107,15 @@ def run_namespace(label: str, spec: dict, seed: int, n_cases: int, repo: str, ex
         res['witness'] = bool(w.get('steps') and w['steps'][0][0] == 'ok' and 'i200' in w['steps'][0][1])
         w2 = impl[1]
         res['witness_wrap'] = bool(w2.get('steps') and w2['steps'][0][0] == 'ok')      # uint8[<=4] = np.array([256, 1], int64) accepted
+        w3 = impl[2]
+        res['witness_fprec'] = bool(w3.get('steps') and w3['steps'][0][0] == 'ok')     # int16[<=3] = np.array([32768, 1], float16) accepted
     res['_convs'] = (convs, impl[len(cases):])
     impl = impl[:len(cases)]
     res['_pending'] = (m, cases, impl, impl_defaults)
     return res
 
 
-def finish_namespace(res: dict, exe: typing.Optional[str], quirk: bool, wrap_live: bool = False) -> None:
+def finish_namespace(res: dict, exe: typing.Optional[str], quirk: bool, wrap_live: bool = False, fprec_live: bool = False) -> None:
     """model run (needs the probed quirk) and all comparisons"""
     m, cases, impl, impl_defaults = res.pop('_pending')
     convs, conv_impl = res.pop('_convs', ([], []))
@@ -1149,6 +1179,14 @@ def finish_namespace(res: dict, exe: typing.Optional[str], quirk: bool, wrap_liv
             tainted = tainted or 'inplace' in ex['tags']
             # model vs implementation
             agrees = True
+            fprec_hit = fprec_live and ('arrwrap_fprec' in ex['tags'] or has_fprec_value(case['ops'][k])) and (
+                outcome == 'ok' or (mdl is not None and k < len(mdl['steps']) and mdl['steps'][k][1] != state))
+            if fprec_hit:
+                # instance of F-PY-ARRWRAP-FPREC: the model (exact comparison = the proposed fix) rejects, the classes accept and wrap;
+                # the states differ from here on, the rest of this case is not compared
+                res['known_instances'] += 1
+                bump('known_fprec_instances')
+                break
             if mdl is not None:
                 res['model_ops'] += 1
                 mo, ms = mdl['steps'][k] if k < len(mdl['steps']) else ('?', '?')
@@ -1308,7 +1346,7 @@ def main(chk: core.Check, replay: typing.Optional[str] = None) -> int:
         'binary16/32, overflow to inf, None -> NaN), law_float_from_int, law_bool_truthiness, law_object_identity, law_ragged_raises, '
         'a[j] = v converts like an element of np.array([v], dtype) and stores in place, a += z wraps; the same-dtype fast path binds the '
         'caller\'s array (no copy)',
-        'library laws of `_MODEL_` (Gen/PyModelAttr.v hypotheses): pickle.loads(pickle.dumps(m, 4)) == m, gzip.decompress(gzip.compress(b)) == b, '
+        'library laws of `_MODEL_` (Gen/PyModelAttr.v hypotheses): pickle.loads(<bytes of the _ModelPickler of filter_pickle, protocol 4>) is a model equivalent to m (memoised values are recomputed), gzip.decompress(gzip.compress(b)) == b, '
         'b85decode(b85encode(b)) == b, the base85 alphabet has no white space; adjacent string literals concatenate',
         'extraction: Require Extraction ExtrOcamlBasic only; OCaml 4.13.1; ocaml/c18_driver.ml',
         'tools/harness/c18_impl.py, tools/harness/codec/{astdump,dsdlgen,target_py,target_py_driver}.py, pydsdl 1.25, NumPy from build/pydeps',
@@ -1368,9 +1406,21 @@ def main(chk: core.Check, replay: typing.Optional[str] = None) -> int:
     wrap_live = bool(witness_wrap) and chk.is_known(FID_WRAP)
     if wrap_live:
         chk.report_known(FID_WRAP)
+    witness_fprec = next((r.get('witness_fprec') for r in results if r['label'] == 'probe'), None)
+    try:
+        gen_text = open(os.path.join(core.COQ, 'theories', 'Generated', 'Gen_PyObj.v'), encoding='utf-8').read()
+        tmpl_exact = 'arr_precheck_exact_gen : bool := true' in gen_text if 'arr_precheck_exact_gen' in gen_text else None
+    except OSError:
+        tmpl_exact = None
+    if tmpl_exact is not None and witness_fprec is not None and tmpl_precheck and tmpl_exact == bool(witness_fprec):
+        broken.append('the scanned template says arr_precheck_exact=%s but int16[<=3] = numpy.array([32768, 1], float16) %s on the generated classes'
+                      % (tmpl_exact, 'is accepted' if witness_fprec else 'is rejected'))
+    fprec_live = bool(witness_fprec) and chk.is_known(FID_FPREC)
+    if fprec_live:
+        chk.report_known(FID_FPREC)
     for r in results:
         if '_pending' in r:
-            finish_namespace(r, exe, quirk, wrap_live)
+            finish_namespace(r, exe, quirk, wrap_live, fprec_live)
 
     selftest_bad = float_selftest(exe, chk.rng, 300 if quick else 3000) if exe else []
     if selftest_bad:
@@ -1398,6 +1448,9 @@ def main(chk: core.Check, replay: typing.Optional[str] = None) -> int:
         n_types += r.get('n_types', 0)
     if witness is None:
         broken.append('the probe namespace c18p could not be generated/run, the known finding could not be probed: %s' % '; '.join(errors)[:600])
+    if witness_fprec and not chk.is_known(FID_FPREC):
+        oracle.insert(0, {'class': 'invalid_accepted', 'detail': 'witness of %s reproduces but the finding is not listed as known' % FID_FPREC,
+                          'dsdl': PROBE_FILES})
     if witness_wrap and not chk.is_known(FID_WRAP):
         oracle.insert(0, {'class': 'invalid_accepted', 'detail': 'witness of %s reproduces but the finding is not listed as known' % FID_WRAP,
                           'dsdl': PROBE_FILES})
@@ -1422,6 +1475,7 @@ def main(chk: core.Check, replay: typing.Optional[str] = None) -> int:
     chk.notes.append('quirk model in use: %s (witness uint4[<=3] = [200, 3] %s; scanned template: arrelem_quirk=%s; live theorem: %s)'
                      % (quirk, 'reproduces' if witness else 'does not reproduce', tmpl_quirk,
                         'C18_obj_invariant_partial + C18_array_elem_range_refuted' if quirk else 'C18_obj_invariant_strict_noquirk'))
+    chk.notes.append('F-PY-ARRWRAP-FPREC: witness int16[<=3] = numpy.array([32768, 1], float16) %s' % ('is accepted (stores [-32768, 1])' if witness_fprec else 'is rejected'))
     chk.notes.append('F-PY-ARRWRAP: witness uint8[<=4] = numpy.array([256, 1], int64) %s; scanned template: t_arr_precheck=%s'
                      % ('is accepted (wraps to [0, 1])' if witness_wrap else 'is rejected', tmpl_precheck))
 
